@@ -122,6 +122,9 @@ impl MT204 {
             }
         }
 
+        // Verify all content is consumed
+        verify_parser_complete(&parser)?;
+
         Ok(MT204 {
             transaction_reference,
             sum_of_amounts,
